@@ -35,7 +35,7 @@ func main() {
 		"monitors: max in-flight source reads / destination operations ≤ Concurrency, fetch count per blob ≤ 1, push count per node ≤ 1, callback trace (exactly one PreCopy then one PostCopy per transferred node, one OnMounted and no PostCopy per mounted node, ≤ 1 OnCopySkipped, PostCopy after the terminal notification of every successor), injected callback error returned; " +
 		"distinct = hash(shape, pairing, API, concurrency, options, latency seed class); non-trivial = a gauge reached the Concurrency bound ∧ reach has a shared node ∧ ≥ 1 transfer")
 	r.Assume("config blobs read by target-platform selection before the graph copy are exempt from the fetch-once rule (DESIGN §3 C04)")
-	worker.Run(r, worker.Opts{Phase: "acct", Total: r.N(1200, 16000), Batch: 100, Timeout: 20 * time.Minute})
+	worker.Run(r, worker.Opts{Phase: "acct", Total: r.N(2000, 24000), Batch: 100, Timeout: 20 * time.Minute})
 	worker.Run(r, worker.Opts{Phase: "cberr", Total: r.N(300, 3000), Batch: 100, Timeout: 20 * time.Minute})
 	if bin := os.Getenv("VERIF_RACE_BIN"); bin != "" {
 		raceDir, _ := os.MkdirTemp("", "verif-c04-race-")
